@@ -78,6 +78,10 @@ def configs(tier):
                 # neither rho nor initial_infecteds: documented default = one node chosen uniformly at random
                 c = dict(c, default_ic=True, tags=['rho', 'default', g, 'full' if full else 'plain'])
                 out.append(c)
+                if sir and g == 'P3':
+                    # ... while some nodes are initially recovered: the random start node must not be one of them
+                    out.append(dict(c, R0=[1], tags=c['tags'] + ['R0']))
+                    out.append(dict(c, R0=[0, 2], tags=c['tags'] + ['R0', 'R0x2']))
         for variant in ('rho+I0', 'rho0+I0', 'rho+emptyI0', 'rho+single'):
             out.append(dict(entry=entry, family='reject', variant=variant, graph='P3', I0=[0], R0=[], full=False, zero='tau', p=0, no_transmission=True,
                             tags=['reject', variant]))
@@ -184,7 +188,7 @@ def run_path(h, cfg):
     return simruns.result_struct(o, r.nodes)
 
 
-DRAWS = ('random', 'expo', 'choice', 'sample', 'binomial', 'truncexp', 'wchoice')
+DRAWS = ('random', 'expo', 'choice', 'sample', 'choices', 'binomial', 'truncexp', 'wchoice')
 
 
 class ReplayStub(RandomStub):
@@ -218,6 +222,10 @@ class ReplayStub(RandomStub):
 
     def sample(self, population, k):
         e = self._next('sample')
+        return [population[j] for j in e[3]]
+
+    def choices(self, population, weights=None, *, cum_weights=None, k=1):
+        e = self._next('choices')
         return [population[j] for j in e[3]]
 
 
@@ -295,14 +303,16 @@ def run_rho(h, cfg):
     kw = dict(tmin=r.tmin, tmax=r.tmax, return_full_data=cfg.get('full', False), rho=rho)
     if cfg.get('default_ic'):
         kw.pop('rho')
+        if cfg.get('R0'):
+            kw['initial_recovereds'] = list(r.R0)
     n0 = len(eng.log)
     ret = simruns.check_shape(h, r, call_with_rates(h, r, f, kw))
     if ret is None:
         return None
     samples = [e for e in eng.log[n0:] if e[0] == 'sample']
-    if len(samples) != 1 or sorted(samples[0][1], key=str) != sorted(r.nodes, key=str):
-        h.fail('rho-count', {'sample_calls': [[str(x) for x in s[1]] + [s[2]] for s in samples]})
-        return None
+    if len(samples) != 1 or sorted(samples[0][1], key=str) != sorted(r.nodes, key=str) or cfg.get('R0'):
+        # another way of choosing the nodes (not one random.sample over all nodes): judge by the outcome only
+        return rho_by_outcome(h, cfg, r, ret, rho)
     k = samples[0][2]
     if cfg.get('default_ic'):
         if k == 1:
@@ -323,6 +333,43 @@ def run_rho(h, cfg):
     r.I0 = picked
     o = simruns.outputs(r, ret)
     simobl.initial_state(h, r, o, prefix='rho:')
+    h.require('row0', True)
+    return simruns.result_struct(o, r.nodes)
+
+
+def rho_by_outcome(h, cfg, r, ret, rho):
+    """protocol-independent reading of "rho": the number of DISTINCT nodes infected at tmin is int(round(N*rho)) (exactly one node
+    for the default), and the reported row 0 / statuses agree with that set"""
+    o = simruns.outputs(r, ret)
+    N = r.N
+    if o.full:
+        picked = [n for n in r.nodes if len(o.sim.node_history(n)[1]) and o.sim.node_history(n)[1][0] == 'I']
+        k = len(picked)
+        r.I0 = picked
+    else:
+        if not len(o.arrays['I']) or not len(o.arrays['S']):
+            h.fail('rho:row0', {'why': 'empty arrays returned', 'lengths': {k_: len(v) for k_, v in o.arrays.items()}})
+            return None
+        k = o.arrays['I'][0]
+        if not simobl._isint(k):
+            h.fail('rho-count', {'I[0]': show(k)})
+            return None
+        k = int(k)
+    if cfg.get('default_ic'):
+        h.require('default-one-random-node', True) if k == 1 else h.fail('default-one-random-node', {'infected_at_tmin': k})
+    else:
+        x = N * rho
+        lo_ok = LE(k - 0.5, x) if k % 2 == 0 else LT(k - 0.5, x)
+        hi_ok = LE(x, k + 0.5) if k % 2 == 0 else LT(x, k + 0.5)
+        h.require('rho-count', AND(lo_ok, hi_ok), {'distinct_nodes_infected_at_tmin': k, 'N': N})
+    if o.full:
+        simobl.initial_state(h, r, o, prefix='rho:')
+    else:
+        S0 = o.arrays['S'][0]
+        if simobl._isint(S0) and int(S0) == N - k - len(r.R0 or []):
+            h.require('rho:row0', True)
+        else:
+            h.fail('rho:row0', {'S[0]': show(S0), 'I[0]': k, 'N': N})
     h.require('row0', True)
     return simruns.result_struct(o, r.nodes)
 
